@@ -40,6 +40,8 @@ ASSUMPTIONS = [
     'a descriptor closed WITHOUT discard may be dropped by the poller with one _disconnect notification (Poll: POLLNVAL); any _read/_write for it, or any event '
     'after that notification, is a failure.  Select spends one empty iteration on removing such descriptors (preen): completeness is judged on the next one',
     'the only operation performed on a closed descriptor is discard',
+    'dialogue harness: peer data and the end of the peer stream are only made pending together against a server that never writes (an echoing server that '
+    'writes to a reset peer closes early under every poller, which is not the pollers\' doing)',
     'dialogue harness: the checking thread waits (bounded wall clock, expiry = inconclusive) until its own select() sees the kernel state the peer action '
     'produces, then ticks a bounded number of times; verdicts are on the resulting streams only',
 ]
@@ -49,7 +51,7 @@ REQUIRED = ['iter_select', 'iter_poll', 'iter_epoll', 'reader_ready_emitted', 'w
             'peer_reset', 'discard_then_close', 'close_then_discard', 'close_without_discard', 'fd_number_reused',
             'silent_for_closed_while_number_reused_and_ready', 'reused_fd_registered_again', 'select_preen', 'poll_nval_disconnect',
             'int_fd_registered', 'several_events_one_iteration', 'dlg_connect', 'dlg_read', 'dlg_disconnect', 'dlg_half_close', 'dlg_abort',
-            'dlg_echo_complete', 'dlg_two_connections_one_round']
+            'dlg_echo_complete', 'dlg_two_connections_one_round', 'dlg_data_and_end_pending_together']
 REQUIRED_OBLIGATIONS = ['SOUND_READ', 'SOUND_WRITE', 'ADDRESS', 'COMPLETE_READ', 'COMPLETE_WRITE', 'SILENT_WHEN_NOT_DUE', 'NO_EVENT_AFTER_DISCARD',
                         'NO_EVENT_FOR_CLOSED', 'AGREE', 'INTERCHANGEABLE', 'STREAM_MATCHES_PEER']
 WORKER_TIMEOUT = {'quick': 300, 'thorough': 1800}
@@ -765,6 +767,8 @@ class DlgWorld:
         expect = []
         if len({a[0] for a in actions}) > 1:
             self.marks.add('dlg_two_connections_one_round')
+        if any(a[1] == 'send' and b[0] == a[0] and b[1] in ('shutwr', 'close', 'abort') for a in actions for b in actions):
+            self.marks.add('dlg_data_and_end_pending_together')
         for a in actions:
             c, act = a[0], a[1]
             if act == 'connect':
@@ -828,7 +832,7 @@ class DlgWorld:
                 continue            # the stream will show the missing connect
             if what == 'send':
                 idle = 0
-                while self.nread(s) < len(p['sent']) and idle < 4 and not self.disconnected(s):
+                while self.nread(s) < len(p['sent']) and idle < 4 and not self.disconnected(s) and s.fileno() >= 0:
                     before = self.nread(s)
                     wait_readable(s, 'peer data')
                     self.tick()
@@ -1015,6 +1019,8 @@ def corpus():
                                                        [[0, 'abort']], [[1, 'shutwr']], [[1, 'close']]]})
     cs.append({'kind': 'dlg', 'echo': True, 'rounds': [[[0, 'connect']], [[0, 'close']], [[1, 'connect']], [[1, 'abort']], [[2, 'connect']],
                                                        [[2, 'send', 7]], [[2, 'send', 9]], [[2, 'close']]]})
+    cs.append({'kind': 'dlg', 'echo': False, 'rounds': [[[0, 'connect'], [1, 'connect'], [2, 'connect']], [[0, 'send', 9000], [0, 'abort']],
+                                                        [[1, 'send', 10], [1, 'close'], [2, 'send', 1500], [2, 'shutwr']], [[2, 'close']]]})
     return cs
 
 
@@ -1136,6 +1142,7 @@ def gen_raw(rng):
 
 def gen_dlg(rng):
     nconn = rng.randint(1, 3)
+    echo = rng.random() < 0.5
     state = {}
     rounds = []
     nxt = 0
@@ -1153,6 +1160,13 @@ def gen_dlg(rng):
             c = rng.choice(live)
             if any(a[0] == c for a in acts):
                 continue
+            if state[c] == 'open' and not echo and rng.random() < 0.25:
+                # burst: the data and the end of the stream are both pending when the server looks
+                end = rng.choice(['shutwr', 'close', 'abort'])
+                acts.append([c, 'send', rng.choice([1, 10, 1500, 9000])])
+                acts.append([c, end])
+                state[c] = 'half' if end == 'shutwr' else 'closed'
+                continue
             if state[c] == 'half':
                 a = rng.choice(['close', 'abort'])
             else:
@@ -1167,7 +1181,7 @@ def gen_dlg(rng):
     tail = [[c, rng.choice(['close', 'abort'])] for c, s in state.items() if s != 'closed']
     if tail:
         rounds.append(tail)
-    return {'kind': 'dlg', 'echo': rng.random() < 0.5, 'rounds': rounds}
+    return {'kind': 'dlg', 'echo': echo, 'rounds': rounds}
 
 
 def plan(tier, seed):
